@@ -91,6 +91,7 @@ def tri_dist(P, T, chunk=2000):
     out = np.empty(len(P))
     a, b, c = T[:, 0][None], T[:, 1][None], T[:, 2][None]
     ab, ac = b - a, c - a
+    chunk = max(16, min(chunk, 60000 // max(1, len(T))))
     for s in range(0, len(P), chunk):
         p = P[s : s + chunk, None, :]
         ap = p - a
@@ -180,6 +181,10 @@ class Orc:
     def fmember(self, P):
         return self.member(P)
 
+    def nominal(self, P):
+        """best-guess boolean membership (no margin) -- used only to build reference samples"""
+        return self.member(P) == 1
+
     def dist(self, P):
         return None
 
@@ -260,6 +265,9 @@ class _Solid(Orc):
 
     def member(self, P):
         return tri3(self._sd(P), self.eps)
+
+    def nominal(self, P):
+        return self._sd(P) < 0
 
     def dist(self, P):
         return np.maximum(self._sd(P), 0)
@@ -416,12 +424,37 @@ class OSpheroid(Orc):
         eq = self.hull.equations
         self.N, self.off = eq[:, :3], eq[:, 3]
         self.T = self.V[self.hull.simplices]
+        # prefilter in the normalised frame: the polytope lies between the spheres of radius r_in and r_out
+        self._R, self._c = R, np.array(params["c"], float)
+        self._scale = np.array(params["d"], float) / ext
+        U = V - ctr
+        hu = ConvexHull(U)
+        self._rin = float((-hu.equations[:, 3]).min())
+        self._rout = float(np.linalg.norm(U, axis=1).max())
 
     def _sdlow(self, P):
-        return (P @ self.N.T + self.off).max(axis=1)  # <0 inside (exact depth), >0: lower bound of distance
+        """<0 inside (a lower bound of the depth), >0 outside (a lower bound of the distance); exact sign.
+        Only points in the thin shell between the inscribed and circumscribed spheres (normalised frame) need
+        the 1280 half-spaces; elsewhere the normalised radius gives certified bounds (the normalising map is
+        1/min(scale)-Lipschitz)."""
+        q = ((P - self._c) @ self._R) / self._scale
+        rho = np.linalg.norm(q, axis=1)
+        smin = float(self._scale.min())
+        out = np.where(rho < self._rin, (rho - self._rin) * smin, (rho - self._rout) * smin)
+        mrg = max(0.005, 3 * self.eps / smin)
+        shell = (rho >= self._rin - mrg) & (rho <= self._rout + mrg)
+        idx = np.where(shell)[0]
+        NT = self.N.T
+        for s in range(0, len(idx), 512):
+            ii = idx[s : s + 512]
+            out[ii] = (P[ii] @ NT + self.off).max(axis=1)
+        return out
 
     def member(self, P):
         return tri3(self._sdlow(P), self.eps)
+
+    def nominal(self, P):
+        return self._sdlow(P) < 0
 
     def dist(self, P):
         s = self._sdlow(P)
@@ -543,6 +576,12 @@ class _Planar(Orc):
 
     def fmember(self, P):
         return tri3(self._sd2(P), self.eps)
+
+    def nominal(self, P):
+        f = self._sd2(P) < 0
+        if self.planar_z is None:
+            return f
+        return f & (np.abs(P[:, 2] - self.planar_z) <= ZTOL)
 
     def member(self, P):
         f = self.fmember(P)
@@ -860,6 +899,9 @@ class OVoxel(Orc):
         out[ok] = self.D[idx[ok, 0], idx[ok, 1], idx[ok, 2]]
         return out
 
+    def nominal(self, P):
+        return self._filled(P)
+
     def member(self, P):
         e = self.eps
         vals = []
@@ -920,12 +962,15 @@ class OView(Orc):
 
     def _nominal(self, P):
         q, rho, az, alt = self._coords(P)
-        ok = rho <= self.rad * 0.995
+        ok = rho <= self.rad * 0.9978
         if self.a0 < 2 * math.pi - 0.017:
             ok &= np.abs(az) <= self.a0 / 2
         if self.a1 < math.pi - 0.017:
             ok &= np.abs(alt) <= self.a1 / 2
         return ok
+
+    def nominal(self, P):
+        return self._nominal(P)
 
     def member(self, P):
         q, rho, az, alt = self._coords(P)
@@ -1028,6 +1073,10 @@ class Combo(Orc):
     def fmember(self, P):
         return self._comb(self.A.fmember(P), self.B.fmember(P))
 
+    def nominal(self, P):
+        a, b = self.A.nominal(P), self.B.nominal(P)
+        return (a & b) if self.op == "and" else (a | b) if self.op == "or" else (a & ~b)
+
     def sample(self, rng, n, tries=60):
         """uniform (natural measure of the composed set) by rejection from the operands' own samplers;
         None if the oracle cannot produce it (e.g. measure unknown, empty, or lower-dimensional result)."""
@@ -1048,17 +1097,17 @@ class Combo(Orc):
             return False
 
         if op == "sub":
-            ok = filt(A, lambda Q: B.member(Q) == 0)
+            ok = filt(A, lambda Q: ~B.nominal(Q))
         elif op == "and":
             if A.dim < B.dim:
-                ok = filt(A, lambda Q: B.member(Q) == 1)
+                ok = filt(A, lambda Q: B.nominal(Q))
             elif B.dim < A.dim:
-                ok = filt(B, lambda Q: A.member(Q) == 1)
+                ok = filt(B, lambda Q: A.nominal(Q))
             else:
                 src, oth = (A, B) if (A.measure() or INF) <= (B.measure() or INF) else (B, A)
                 if src.sample(rng, 1) is None:
                     src, oth = oth, src
-                ok = filt(src, lambda Q: oth.member(Q) == 1)
+                ok = filt(src, lambda Q: oth.nominal(Q))
         else:
             if A.dim > B.dim:
                 ok = filt(A, lambda Q: np.ones(len(Q), bool))
@@ -1073,7 +1122,7 @@ class Combo(Orc):
                 QA, QB = A.sample(rng, nA), B.sample(rng, nB)
                 if QA is None or QB is None:
                     return None
-                QB = QB[A.member(QB) == 0]
+                QB = QB[~A.nominal(QB)]
                 Q = np.concatenate((QA, QB))
                 rng.shuffle(Q)
                 out.append(Q)
